@@ -394,12 +394,24 @@ package casket
 //@   modifies ghost:onceCalls, ghost:directRuns
 //@   ensures [callbacks_run_only_inside_the_once] onceCalls == old(onceCalls) + 1 && directRuns == old(directRuns)
 
-//@ unit helper_frames frames=on props=C11 nilchecks=on filter=`casket\.DirectiveAction$|casket\.checkFdlimit$`
+//@ unit helper_frames frames=on props=C11,C08 nilchecks=on filter=`casket\.DirectiveAction$|casket\.checkFdlimit$|casket\.getServerType$|casket\.loadServerBlocks$`
 //@ // helpers that other units call through an empty contract ("frame-empty, promises nothing"): here each is verified
 //@ // against exactly that contract (safety and an empty frame), so that assumption is a proved fact
 //@ use @verif/specs/stdlib.spec:stdlib
 //@ func DirectiveAction
 //@ func checkFdlimit
+//@ // the two look-ups validate_only assumes frame-empty: the server-type table is only read; parsing writes nothing the
+//@ // caller holds (the Casketfile parser builds its result from its own reader: casketfile's units)
+//@ invariant serverTypes != nil
+//@ func ValidDirectives
+//@ extern github.com/tmpim/casket/casketfile.Parse
+//@ extern bytes.NewReader
+//@ extern fmt.Errorf
+//@   ensures result != nil
+//@ extern invoke:(github.com/tmpim/casket.Input).Path
+//@ extern invoke:(github.com/tmpim/casket.Input).Body
+//@ func getServerType
+//@ func loadServerBlocks
 
 //@ unit lifecycle_helpers frames=on props=C08,C16,C15 verify_pure=on nilchecks=on filter=`casket\.(IsLoopback|IsUpgrade|cloneEventHooks|getCurrentCasketfile)$`
 //@ // representation invariant of the instance list: every entry is a live *Instance (assumed at entry, re-established at every exit that changed state)
